@@ -10,20 +10,24 @@
 (*       aord[s] the order in which mdp.actions(s) lists the available actions           *)
 (*       rand    1 iff randomize_action_order (the order of a state is then any          *)
 (*               permutation, fixed once = every seed of the private shuffle)            *)
-(*       i0[s]   1 iff s is listed in initial_state_dist().support (p0[s] may be 0)      *)
+(*       i0[s]   1 iff s is listed in initial_state_dist().support (p0[s] may be 0;      *)
+(*               such entries take no part in the stop test or the initial value)        *)
 (*       zl,lst  zl = 1: successor distributions list zero-probability entries for the   *)
 (*               states with lst[s] = 1 (DictDistribution with explicit zeros)           *)
 (* (O) oracle: MDP!OptimalValue, PolicyValue, StepsValue (exact rationals).              *)
 (* (R) reference machine, one action per step of lrtdp.py:                               *)
-(*       StartTrial  lrtdp(): stop test over the listed initial support, sample s0       *)
+(*       StartTrial  lrtdp(): stop test over the initial states of positive probability, *)
+(*                   sample s0                                                           *)
 (*       TrialStep   lrtdp_trial(): Bellman update, greedy action = first maximiser in   *)
 (*                   the state's fixed order, sampled successor, absorbing => solved,    *)
 (*                   length cap                                                          *)
 (*       EndTrial    the listener point end_of_lrtdp_trial                               *)
 (*       CheckStep   one visited.pop() + _check_solved (open/closed labelling, residual  *)
 (*                   test, label all or update in reverse)                               *)
-(*       Finish      _tear_down_plan_on: greedy policy on updated states, heuristic      *)
-(*                   look-ahead fallback elsewhere, initial value                        *)
+(*       Finish      _tear_down_plan_on: greedy policy on updated states; elsewhere      *)
+(*                   uniform over the maximisers of the look-ahead on the final values   *)
+(*                   (absorbing successors worth 0); initial value with absorbing        *)
+(*                   initial states worth 0                                              *)
 (*     Sampling with the seeded generator = nondeterministic choice (every seed = every  *)
 (*     history).  V is total (defaultdict2: the heuristic where nothing is stored), upd   *)
 (*     is the set of stored keys.                                                        *)
@@ -33,8 +37,7 @@
 (*           terminal state with the history that led there (replayed into msdm)         *)
 (*   "trace" the choices come from a trace recorded from the real code (script), the     *)
 (*           recorded snapshots of V / solved must equal the machine's after every trial *)
-(*   "judge" no machine: exact evaluation of a policy returned by the real code (pol) and *)
-(*           of the greedy policy of the values it reported (pol2)                       *)
+(*   "judge" no machine: exact evaluation of a policy returned by the real code (pol)    *)
 (* oracle = 0 in a record skips the optimal-value oracle (the driver then takes it from   *)
 (* another record of the same instance).                                                 *)
 EXTENDS MDP, Json, IOUtils
@@ -125,9 +128,6 @@ AllOf(S) == IF "bad" \in S THEN "bad" ELSE IF "unk" \in S THEN "unk" ELSE "ok"
 
 \* ------------------------------------------------------------------ oracle bundle (computed once per behaviour)
 CeilDiv(n, d) == -((-n) \div d)       \* d > 0
-HLookNum(m, s, a) ==      \* the fallback policy's look-ahead: E[r + gamma * heuristic(ns)], no absorbing mask
-  SumTo([t \in St(m) |-> IF m.P[s][a][t] = 0 THEN 0
-                         ELSE m.P[s][a][t] * (m.R[s][a][t] * SC(m) * m.GD + m.GN * m.h[t])], m.N)
 HBackup(m, s) == MaxSet({QNum(m, m.h, s, a) : a \in Avail(m, s)})
 Oracle(m) ==
   LET vs == OptimalValue(m) IN
@@ -144,11 +144,12 @@ NoOracle == [vstar |-> <<>>, lo |-> <<>>, vinit |-> <<0, 1>>, proper |-> TRUE, a
 
 \* ------------------------------------------------------------------ the returned policy and its exact evaluation
 \* support of the returned policy at the non-absorbing states: deterministic greedy where a value is
-\* stored, uniform over the maximisers of the heuristic look-ahead elsewhere
+\* stored, uniform over all maximisers of the same look-ahead (final values, heuristic where nothing is
+\* stored, absorbing successors worth 0) elsewhere
 RetSup(m, v, u, o) ==
   [s \in NonAbs(m) |->
      IF s \in u THEN {Greedy(m, v, o, s)}
-     ELSE LET mx == MaxSet({HLookNum(m, s, a) : a \in Avail(m, s)}) IN {a \in Avail(m, s) : HLookNum(m, s, a) = mx}]
+     ELSE LET mx == MaxSet({QNum(m, v, s, a) : a \in Avail(m, s)}) IN {a \in Avail(m, s) : QNum(m, v, s, a) = mx}]
 QDof(m, sup) == IF \A s \in NonAbs(m) : Cardinality(sup[s]) = 1 THEN 1
                 ELSE IF \A s \in NonAbs(m) : Cardinality(sup[s]) \in {1, 2} THEN 2 ELSE 6
 Weights(m, sup, qd) == [s \in NonAbs(m) |-> [a \in Ac(m) |-> IF a \in sup[s] THEN qd \div Cardinality(sup[s]) ELSE 0]]
@@ -169,10 +170,14 @@ ReturnClause(m, vinit, ev) ==
   GLeq(GSub(GSub(GR(vinit), GR(ev.pinit)), GMul(GInt(m.EPS, SC(m)), GR(ev.ninit))), <<TRUE, 0, 1>>)
 \* clause: values never below the optimum
 UpperClause(m, v, vstar) == AllOf({GLeq(GR(vstar[s]), GInt(v[s], SC(m))) : s \in St(m)})
-\* clause: absorbing states are worth 0 where the result reads them (stored entries and the initial states)
-AbsZeroClause(m, v, u) == \A s \in ExplAbs(m) : (s \in u \/ s \in InitPos(m)) => v[s] = 0
-\* the initial value the code reports: sum p0 * V over the initial states (numerator over ID * SC)
-InitValNum(m, v) == SumTo([s \in St(m) |-> m.p0[s] * v[s]], m.N)
+\* the initial value the code reports: sum p0 * V over the initial states of positive probability, absorbing
+\* ones worth 0 (numerator over ID * SC)
+InitValNum(m, v) == SumTo([s \in St(m) |-> IF IsAbs(m, s) THEN 0 ELSE m.p0[s] * v[s]], m.N)
+\* clause: absorbing states are worth 0 where the result reads them: the stored entries, and the initial
+\* value is the expectation over the non-absorbing initial states only
+AbsZeroClause(m, v, u) ==
+  /\ \A s \in ExplAbs(m) \cap u : v[s] = 0
+  /\ InitValNum(m, v) = SumTo([s \in St(m) |-> IF s \in ExplAbs(m) THEN 0 ELSE m.p0[s] * v[s]], m.N)
 
 \* ------------------------------------------------------------------ histories / scripts
 \* a choice is a record [k, s, a, t]: k = 0 initial sample t; k = 1 successor t of (s, a)
@@ -206,9 +211,10 @@ Init ==
   /\ orc = IF Batch[iid].oracle = 0 THEN NoOracle ELSE Oracle(Batch[iid])
   /\ term = <<>>
 
-AllInitSolved == InitListed(M) \subseteq solved
+AllInitSolved == \A s \in InitListed(M) : M.p0[s] > 0 => s \in solved
 
-\* lrtdp(): stop test, then sample the start of a trial
+\* lrtdp(): stop test (entries of probability 0 in the listed support do not count), then sample the
+\* start of a trial
 StartTrial ==
   /\ pc = "idle" /\ ~AllInitSolved
   /\ IF Scripted(M) /\ (~HasNext(M) \/ NextCh(M).k # 0 \/ NextCh(M).t \notin InitPos(M))
@@ -283,8 +289,7 @@ TermBundle(m, v, u, o, oc) ==
       fallback |-> sup2 # sup,
       gap2 |-> IF has THEN GapClause(m, v, oc.vstar, ev2) ELSE "unk",
       ret2 |-> IF has THEN ReturnClause(m, oc.vinit, ev2) ELSE "unk",
-      abszero |-> AbsZeroClause(m, v, u),
-      absstored |-> \A s \in ExplAbs(m) \cap u : v[s] = 0]
+      abszero |-> AbsZeroClause(m, v, u)]
 
 \* lrtdp() returns, _tear_down_plan_on assembles the result
 Finish ==
@@ -319,41 +324,22 @@ SolvedClosed ==
   (Machine /\ pc \in {"idle", "done"}) =>
      \A s \in solved \ ExplAbs(M) :
         \E a \in Avail(M, s) : AbsI(V[s] - Qv(M, V, s, a)) <= M.EPS /\ PosSucc(M, s, a) \subseteq solved
-\* (P3) "terminates with all initial states labelled": between trials there is always an initial state
-\*      that can be sampled and is not labelled yet (otherwise no trial can ever label the missing ones)
+\* (P3) "terminates with all initial states labelled": between trials, while the run goes on, there is
+\*      an initial state that can be sampled and is not labelled yet (so every trial can make progress;
+\*      entries of probability 0 in the listed support can never starve the loop)
 Starved == pc = "idle" /\ ~AllInitSolved /\ InitPos(M) \subseteq solved
 CanProgress == Machine => ~Starved
-\* (P4) at the end the initial states are within margin * N^pi of the optimum
+\* (P4) at the end the initial states are within margin * N^pi of the optimum (pi = the returned policy)
 GapBound == (Machine /\ Done) => term.gap # "bad"
 \* (P5) ... and so is the exact return of the returned policy
 ReturnBound == (Machine /\ Done) => term.ret # "bad"
-\* (P6) absorbing states are worth 0 in what the result reads
+\* (P6) absorbing states are worth 0 in what the result reads (stored entries, initial value)
 AbsorbingZero == (Machine /\ Done) => term.abszero
-\* (P3)-(P6) are the clauses of the statement on the machine that mirrors msdm *as it is*.  TLC evaluates
-\* them in every terminal state and the verdicts travel with the emitted record: a "bad" one is a
-\* model-level prediction that the driver must reproduce on the real code before anything is reported.
-\* What is listed as INVARIANT in the configuration are their forms modulo the three shapes on which the
-\* mirrored code is known (by this very model) to break them; outside those shapes they must hold:
-\*   D1 an absorbing initial state without a stored value reads the heuristic
-\*   D2 an initial-support entry of probability 0 is never labelled
-\*   D3 the returned policy of a labelled state without a stored value comes from the heuristic look-ahead
-\* With a monotone heuristic values only decrease, a labelled state keeps its greedy action and the
-\* label-consistent policy is the one the labels certify: the bounds are then theorems of the design
-\* (Bonet & Geffner) and a failure is a defect of this specification.  For admissible heuristics that are
-\* not monotone the same clauses are evaluated and emitted, and decided on the real runs.
-GapBoundLC       == (Machine /\ Done /\ orc.mono) => term.gap2 # "bad"
-ReturnBoundLC    == (Machine /\ Done /\ orc.mono) => term.ret2 # "bad"
-GapBoundModD3    == (Machine /\ Done /\ orc.mono /\ ~term.fallback) => term.gap # "bad"
-ReturnBoundModD3 == (Machine /\ Done /\ orc.mono /\ ~term.fallback) => term.ret # "bad"
-\* the same without the monotonicity premise (held on every history explored so far; not a theorem)
-GapBoundLCAny       == (Machine /\ Done) => term.gap2 # "bad"
-ReturnBoundLCAny    == (Machine /\ Done) => term.ret2 # "bad"
-GapBoundModD3Any    == (Machine /\ Done /\ ~term.fallback) => term.gap # "bad"
-ReturnBoundModD3Any == (Machine /\ Done /\ ~term.fallback) => term.ret # "bad"
-AbsZeroModD1     == (Machine /\ Done) =>
-                       /\ term.absstored
-                       /\ (\A s \in ExplAbs(M) \cap InitPos(M) : s \in upd \/ M.h[s] = 0) => term.abszero
-CanProgressModD2 == (Machine /\ InitListed(M) = InitPos(M)) => ~Starved
+\* design lemma behind (P4)/(P5): the same bounds for the label-consistent policy (first maximiser of the
+\* final values everywhere) when the heuristic is monotone - then values only decrease, a labelled state
+\* keeps its greedy action and the bounds are theorems (Bonet & Geffner)
+GapBoundLC    == (Machine /\ Done /\ orc.mono) => term.gap2 # "bad"
+ReturnBoundLC == (Machine /\ Done /\ orc.mono) => term.ret2 # "bad"
 \* instance filters (evaluated in the initial states): a generator bug must not turn into a verdict
 InstancesOK ==
   (upd = {} /\ solved = {} /\ stack = <<>> /\ ntr = 0) =>
@@ -362,7 +348,7 @@ InstancesOK ==
      /\ InitPos(M) \subseteq InitListed(M) /\ InitPos(M) # {}
 
 \* ------------------------------------------------------------------ emission
-\* mc / trace: one record per terminal state of the machine, with the verdicts of (P4)-(P6) on it
+\* mc / trace: one record per terminal state of the machine (the history is replayed into msdm)
 TermRecord ==
   [iid |-> iid, tag |-> M.tag, kind |-> ModeOf(M), pc |-> pc,
    v |-> V, upd |-> upd, solved |-> solved, ord |-> ord, ch |-> hist.ch, fail |-> hist.fail, succ |-> hist.succ,
@@ -372,22 +358,15 @@ DivergedRecord ==
   [iid |-> iid, tag |-> M.tag, kind |-> ModeOf(M), pc |-> pc, inexact |-> inexact, ntr |-> ntr, mism |-> mism,
    at |-> Len(hist.ch), v |-> V, upd |-> upd, solved |-> solved, top |-> IF stack = <<>> THEN 0 ELSE stack[Len(stack)],
    vstar |-> orc.vstar, vinit |-> orc.vinit, adm |-> orc.adm, proper |-> orc.proper]
-StarvedRecord ==
-  [iid |-> iid, tag |-> M.tag, kind |-> ModeOf(M), pc |-> "starved", ch |-> hist.ch, v |-> V, upd |-> upd, solved |-> solved,
-   vstar |-> orc.vstar, vinit |-> orc.vinit, adm |-> orc.adm, proper |-> orc.proper]
 \* judge: exact evaluation of the policy the real code returned (support sets M.pol[s][a] in {0,1})
 JudgeRecord ==
   LET sup  == TLCEval([s \in NonAbs(M) |-> {a \in Ac(M) : M.pol[s][a] = 1}])
-      sup2 == TLCEval([s \in NonAbs(M) |-> {a \in Ac(M) : M.pol2[s][a] = 1}])
       ev   == Evaluate(M, sup)
-      ev2  == IF sup2 = sup THEN ev ELSE Evaluate(M, sup2)
   IN [iid |-> iid, tag |-> M.tag, kind |-> "judge", vstar |-> orc.vstar, vinit |-> orc.vinit, adm |-> orc.adm,
       mono |-> orc.mono, proper |-> orc.proper,
-      pv |-> ev.pv, steps |-> ev.steps, pinit |-> ev.pinit, ninit |-> ev.ninit,
-      fallback |-> sup2 # sup, steps2 |-> ev2.steps, pinit2 |-> ev2.pinit, ninit2 |-> ev2.ninit]
+      pv |-> ev.pv, steps |-> ev.steps, pinit |-> ev.pinit, ninit |-> ev.ninit]
 Emit ==
   /\ (pc = "done" /\ term # <<>>) => PrintT(ToJson(TermRecord))
   /\ (pc = "diverged" \/ (pc = "done" /\ term = <<>>)) => PrintT(ToJson(DivergedRecord))
   /\ (pc = "judged") => PrintT(ToJson(JudgeRecord))
-  /\ (Starved /\ ~inexact) => PrintT(ToJson(StarvedRecord))
 =============================================================================
